@@ -205,6 +205,9 @@ def singleline_string_literal(string: str) -> str:
 def multiline_string_literal(string: str) -> str:
     string = str(string)[3:-3]
     all_lines = string.splitlines()
+    if len(all_lines) > 0 and string.splitlines(keepends=True)[-1] != all_lines[-1]:
+        # The string ends with a line break. splitlines() doesn't return the (empty) last line after it.
+        all_lines.append("")
     lines: list[str] = []
     last_line = ""
 
